@@ -106,6 +106,9 @@ def _simple_arg(e) -> bool:
         return _simple_arg(e.value)
     if isinstance(e, ast.Subscript):
         return _simple_arg(e.value) and _simple_arg(e.slice)     # a pure read: duplicating it is harmless
+    if isinstance(e, ast.Call) and isinstance(e.func, ast.Name) and e.func.id == 'getattr' and len(e.args) == 2 \
+            and not e.keywords:
+        return all(_simple_arg(a) for a in e.args)               # a field read chosen by name
     return False
 
 
@@ -410,9 +413,16 @@ class _Inliner:
         self.count = 0
         self.module_funcs = {n.name: n for n in tree.body if isinstance(n, ast.FunctionDef)}
         self.class_methods = {}
+        self.tuple_records = {}      # NamedTuple / plain @dataclass classes without __init__: name -> field names in order
         for c in tree.body:
             if isinstance(c, ast.ClassDef):
                 self.class_methods[c.name] = {n.name: n for n in c.body if isinstance(n, ast.FunctionDef)}
+                is_nt = any((isinstance(b, ast.Name) and b.id == 'NamedTuple') or
+                            (isinstance(b, ast.Attribute) and b.attr == 'NamedTuple') for b in c.bases)
+                if is_nt and '__new__' not in self.class_methods[c.name] and '__init__' not in self.class_methods[c.name]:
+                    flds = [st.target.id for st in c.body if isinstance(st, ast.AnnAssign) and isinstance(st.target, ast.Name)]
+                    if flds and not any(isinstance(st, ast.AnnAssign) and st.value is not None for st in c.body):
+                        self.tuple_records[c.name] = flds
 
     def run(self):
         for owner_cls, f in self._all_functions():
@@ -496,6 +506,31 @@ class _Inliner:
                     and isinstance(x.value, ast.Call) and isinstance(x.value.func, ast.Name) \
                     and x.value.func.id in self.class_methods and stores.get(x.targets[0].id) == 1:
                 K = x.value.func.id
+                if K in self.tuple_records:
+                    # a NamedTuple record: field i is positional argument i (or the keyword of that name)
+                    flds = self.tuple_records[K]
+                    call = x.value
+                    if any(isinstance(a, ast.Starred) for a in call.args) or any(k.arg is None for k in call.keywords) \
+                            or len(call.args) > len(flds):
+                        continue
+                    vals = dict(zip(flds, call.args))
+                    vals.update({k.arg: k.value for k in call.keywords if k.arg in flds})
+                    if set(vals) != set(flds) or not all(_simple_arg(v) for v in vals.values()):
+                        continue
+                    argnames = {n.id for v in vals.values() for n in ast.walk(v) if isinstance(n, ast.Name)}
+                    fparams = {a.arg for a in f.args.args}
+                    if any(stores.get(nm, 0) > (0 if nm in fparams else 1) for nm in argnames):
+                        continue
+                    # only plain field reads of the record (no unpacking / indexing / passing it on)
+                    nm_ = x.targets[0].id
+                    other_use = any(isinstance(u, ast.Name) and u.id == nm_ and isinstance(u.ctx, ast.Load)
+                                    and not any(isinstance(p_, ast.Attribute) and p_.value is u and p_.attr in flds
+                                                for p_ in ast.walk(f))
+                                    for u in ast.walk(f))
+                    if other_use:
+                        continue
+                    out[nm_] = (K, dict(vals))
+                    continue
                 init = self.class_methods[K].get('__init__')
                 if init is None or init.args.vararg or init.args.kwarg:
                     continue
